@@ -50,7 +50,7 @@ CLAIMED = {
  "C05": ("exploration", "exactly-once ledger over done channels under concurrent producers, Start/Stop races, PRNG store faults and schedule-point delays, with the race detector",
          "Histories of 2-24 concurrent producers (all batch and done-channel kinds, rejected batches of up to 160 rows with several bad rows spread over partitions, Flush callers) with Start early/late/twice/never, Stop racing with them, queries and merges alongside and flush-path store failures: after Stop returned nil every accepted batch has exactly one answer, refused batches have none, every Flush call has returned, both workers have exited. Most batches of some histories report to one shared done channel (capacity 1-2); Stop is also called from two goroutines at once and again after it returned. In a third of the histories callers are held between the stopped check and the channel send while Stop runs, at a tagged point and through caller contexts whose Done() is slow. Stuck detector for bounded progress.",
          "'Keeps receiving' = receiver parked before the call; callers use context timeouts on a never-started engine.", "6/C05"),
- "C06": ("fault_enumeration", "store-call fault enumeration over recorded sequential histories; answers compared with queries on this and a fresh engine",
+ "C06": ("fault_enumeration", "store-call fault enumeration over recorded sequential histories (generic and context-error-wrapping Update failures); answers compared with queries on this and a fresh engine",
          "Every single flush-path store-call position of each explored history (CreateFile, every Write, Close pre- and post-effect, Update) is failed in turn, then every cleanup call (Abort/TombstoneFile/Close) the failure provoked, plus PRNG pairs; after every Flush and at the end: nil answer => rows visible exactly once on this and a fresh engine, error answer => never visible, unmarshalable batch => error and no trace, no batch unanswered or answered twice.",
          "Exhaustive over single positions of the explored histories; histories themselves are sampled. MetaStore.Update atomic (MemoryMetaStore behind the wrapper).", "6/C06"),
  "C07": ("exploration", "gated-store workload + late-receiver histories + monotone len() monitor over never-consumed buffered done channels + visibility query at every Flush return, with the race detector",
